@@ -360,6 +360,17 @@ ADD9 = {
 for _id, _t in ADD9.items():
     P[_id]["text"] += " " + _t
 
+ADD10 = {
+ "C03": "Where a handler records event.Payload(buff[:x]) of a buffer it has just read into, x is what that Read returned (rule payload-bounded-by-read-count).",
+ "C04": "The isPrefix result of (*bufio.Reader).ReadLine is looked at wherever ReadLine is called in the service packages (rule readline-prefix-honoured).",
+ "C09": "A loop that consumes from the connection and tests the error of its read/discard has a branch that leaves the loop on a non-nil error (rule drain-loop-leaves-on-error).",
+ "C14": "Canary.send writes no field of the shared Canary object outside Canary.m (rule shared-scratch-under-lock).",
+ "C16": "In agentConnection.Write a chunk copied inside a loop is not cut from the caller's buffer with a loop-variant upper bound and no lower bound (rule chunk-source-advances).",
+ "C20": "In the TCP option loop the arm for option kind 0 (End-of-Option-List) leaves the loop (rule eol-ends-option-parsing).",
+}
+for _id, _t in ADD10.items():
+    P[_id]["text"] += " " + _t
+
 PENDING = {
 }
 
